@@ -18,41 +18,8 @@ pub assume_specification<Idx> [std::ops::RangeInclusive::<Idx>::end] (r: &RangeI
     ensures *e == ri_end(*r);
 pub assume_specification<Idx> [std::ops::RangeInclusive::<Idx>::start] (r: &RangeInclusive<Idx>) -> (e: &Idx)
     ensures *e == ri_start(*r);
-pub assume_specification [usize::div_ceil] (a: usize, b: usize) -> (r: usize)
-    requires b > 0,
-    ensures r == (a + b - 1) / (b as int);
 
-// ---- spec vocabulary ----
-pub open spec fn bit(w: u32, b: u32) -> bool { w & (1u32 << b) != 0 }
-
-impl SimpleVob {
-    pub open spec fn nwords(&self) -> int { self.data@.len() as int }
-    /// membership of i in the set denoted by the bit vector
-    pub open spec fn has(&self, i: int) -> bool {
-        0 <= i < 32 * self.nwords() && bit(self.data@[i / 32], (i % 32) as u32)
-    }
-    pub open spec fn wf(&self) -> bool { self.size <= 32 * self.nwords() && self.nwords() * 32 <= usize::MAX }
-}
-
-// ---- bit lemmas (proved by bit_vector) ----
-pub proof fn lemma_zero_bits()
-    ensures forall|c: u32| c < 32 ==> !#[trigger] bit(0u32, c),
-{
-    assert forall|c: u32| c < 32 implies !#[trigger] bit(0u32, c) by {
-        assert(0u32 & (1u32 << c) == 0) by (bit_vector);
-    }
-}
-
-pub proof fn lemma_set_bit(w: u32, b: u32, c: u32)
-    requires b < 32, c < 32,
-    ensures bit(w | (1u32 << b), c) == (bit(w, c) || b == c),
-            bit(w & !(1u32 << b), c) == (bit(w, c) && b != c),
-{
-    assert(((w | (1u32 << b)) & (1u32 << c) != 0) == ((w & (1u32 << c) != 0) || b == c)) by (bit_vector)
-        requires b < 32, c < 32;
-    assert(((w & !(1u32 << b)) & (1u32 << c) != 0) == ((w & (1u32 << c) != 0) && b != c)) by (bit_vector)
-        requires b < 32, c < 32;
-}
+//@@ include common/svob_core.vrs
 
 pub proof fn lemma_masks(s: u32, e: u32, c: u32)
     requires s < 32, e < 32, c < 32,
@@ -96,128 +63,6 @@ pub proof fn lemma_shift_zero(w: u32, off: u32, c: u32)
 }
 
 impl SimpleVob {
-//@@ fn toktrie/src/svob.rs SimpleVob::new
-//@ ret r
-//@ spec
-    ensures r.size == 0, r.nwords() == 0, r.wf(), forall|j: int| !r.has(j),
-//@ end
-
-//@@ fn toktrie/src/svob.rs SimpleVob::get
-//@ ret r
-//@ spec
-    requires idx / 32 < self.nwords(),
-    ensures r == self.has(idx as int),
-//@ end
-
-//@@ fn toktrie/src/svob.rs SimpleVob::set
-//@ spec
-    requires idx / 32 < old(self).nwords(),
-    ensures final(self).size == old(self).size, final(self).nwords() == old(self).nwords(),
-        forall|j: int| final(self).has(j) == (if j == idx { val } else { old(self).has(j) }),
-//@ before if val {
-    let ghost w = self.data@[byte_idx as int];
-//@ body_end
-    proof {
-        assert forall|j: int| self.has(j) == (if j == idx { val } else { old(self).has(j) }) by {
-            if 0 <= j < 32 * self.nwords() && j / 32 == byte_idx {
-                lemma_set_bit(w, bit_idx as u32, (j % 32) as u32);
-            }
-        }
-    }
-//@ end
-
-//@@ fn toktrie/src/svob.rs SimpleVob::len
-//@ ret r
-//@ spec
-    ensures r == self.size,
-//@ end
-
-//@@ fn toktrie/src/svob.rs SimpleVob::is_empty
-//@ ret r
-//@ spec
-    ensures r == (self.size == 0),
-//@ end
-
-//@@ fn toktrie/src/svob.rs SimpleVob::allow_token
-//@ spec
-    requires tok as usize / 32 < old(self).nwords(),
-    ensures final(self).size == old(self).size, final(self).nwords() == old(self).nwords(),
-        forall|j: int| final(self).has(j) == (j == tok || old(self).has(j)),
-//@ end
-
-//@@ fn toktrie/src/svob.rs SimpleVob::disallow_token
-//@ spec
-    requires tok as usize / 32 < old(self).nwords(),
-    ensures final(self).size == old(self).size, final(self).nwords() == old(self).nwords(),
-        forall|j: int| final(self).has(j) == (j != tok && old(self).has(j)),
-//@ end
-
-//@@ fn toktrie/src/svob.rs SimpleVob::is_allowed
-//@ ret r
-//@ spec
-    requires tok as usize / 32 < self.nwords(),
-    ensures r == self.has(tok as int),
-//@ end
-
-// R1: get_unchecked_mut(i) -> checked index; the bounds obligation Verus generates is the safety condition
-// of the unchecked access, discharged from the `requires` that every caller must establish.
-//@@ fn toktrie/src/svob.rs SimpleVob::allow_token_unchecked
-//@ rewrite R1 :: *self.data.get_unchecked_mut(word_idx) |= 1u32 << bit_idx; ==> self.data[word_idx] |= 1u32 << bit_idx;
-//@ spec
-    requires (tok >> 5) < old(self).nwords(), old(self).nwords() * 32 <= usize::MAX,
-    ensures final(self).size == old(self).size, final(self).nwords() == old(self).nwords(),
-        forall|j: int| final(self).has(j) == (j == tok || old(self).has(j)),
-//@ body_start
-    proof {
-        assert(tok >> 5 == tok / 32 && tok & 31 == tok % 32) by (bit_vector);
-    }
-//@ before self.data[word_idx] |= 1u32 << bit_idx;
-    let ghost w = self.data@[word_idx as int];
-//@ body_end
-    proof {
-        assert forall|j: int| self.has(j) == (j == tok || old(self).has(j)) by {
-            if 0 <= j < 32 * self.nwords() && j / 32 == word_idx {
-                lemma_set_bit(w, bit_idx, (j % 32) as u32);
-            }
-        }
-    }
-//@ end
-
-//@@ fn toktrie/src/svob.rs SimpleVob::resize
-//@ spec
-    requires (size + 31) / 32 >= old(self).nwords(), size + 31 <= usize::MAX,
-    ensures final(self).size == size, final(self).nwords() == (size + 31) / 32, final(self).wf(),
-        forall|j: int| final(self).has(j) == old(self).has(j),
-//@ after self.data.resize(new_size, 0);
-    proof {
-        assert(bit(0u32, 0u32) == false) by { assert(0u32 & (1u32 << 0u32) == 0) by (bit_vector); }
-        assert forall|c: u32| c < 32 implies !bit(0u32, c) by {
-            assert(0u32 & (1u32 << c) == 0) by (bit_vector);
-        }
-    }
-//@ end
-
-//@@ fn toktrie/src/svob.rs SimpleVob::alloc
-//@ ret r
-//@ spec
-    requires size + 31 <= usize::MAX,
-    ensures r.size == size, r.nwords() == (size + 31) / 32, r.wf(), forall|j: int| !r.has(j),
-//@ end
-
-//@@ fn toktrie/src/svob.rs SimpleVob::alloc_with_capacity
-//@ ret r
-//@ spec
-    requires size <= capacity, capacity + 31 <= usize::MAX,
-    ensures r.size == size, r.nwords() == (capacity + 31) / 32, r.wf(), forall|j: int| !r.has(j),
-//@ before r.size = size;
-    let ghost r0 = r;
-//@ after r.size = size;
-    proof {
-        assert(r.data@ == r0.data@);
-        assert forall|j: int| !r.has(j) by { assert(r.has(j) == r0.has(j)); }
-    }
-//@ end
-
 //@@ fn toktrie/src/svob.rs SimpleVob::trim_trailing_zeros
 //@ spec
     requires old(self).nwords() * 32 <= usize::MAX,
